@@ -3,12 +3,18 @@
    not depend on the trace setting; the machine's events are its projection).
    C17_events_are_the_specification: the events delivered are exactly the specification stream (all of it when
    tracing, without the trace events otherwise), in order.
-   UNDISCHARGED: the explicit one-to-one statement between successful last-step events and results, and the
-   predicate_match stamp of has-family filters (both visible in `sem`; compared event by event by the
-   correspondence of this check). *)
+   C17_last_step_one_to_one: for a query traced from the top, the successful attempts of the path's last step
+   delivered outside filter evaluation (predicate_match absent) are, one-to-one and in order, the matches the
+   iterator yielded; C17_last_step_one_to_one_spec is the same about the specification stream, also when an
+   exception cuts it short.  C17_next_is_reached: every such event names a step of the path and its next_match,
+   when present, is reached from last_match by that step (a member the step selects; for a recursive step the
+   context itself or one of its members; for a filter the candidate itself).
+   C17_filter_events_stamped: every event of a has-family filter evaluation carries a predicate_match and
+   none is a result of the enclosing search; C17_has_events_carry_candidate: the attempts of has(p) at
+   candidate c, p filter-free, all carry c. *)
 From Coq Require Import List ZArith String Bool PArith.
-From TP Require Import Json PyPrim Machine Spec.
-From TP.proofs Require Import RefineBase Refine NextLayer Iterate WfRun Query SpecLemmas Top PropLemmas.
+From TP Require Import Json PyPrim Machine Api Spec SpecHas.
+From TP.proofs Require Import RefineBase Refine NextLayer Iterate WfRun Query SpecLemmas Top PropLemmas SpecWork.
 Import ListNotations.
 
 Theorem C17_transparent :
@@ -35,3 +41,53 @@ Theorem C17_events_are_the_specification :
       complete P sev src vp tr d \/ sound_prefix P ev sev src vp tr d.
 Proof. exact iterator_spec. Qed.
 Print Assumptions C17_events_are_the_specification.
+
+Theorem C17_last_step_one_to_one_spec :
+  forall (P : Type) (sev : P -> jctx -> res json * list sevent) (rest : list (vertex P)),
+    rest <> [] ->
+    (forall p c, In (VPred p) rest -> stamped (snd (sev p c))) ->
+    forall i c, lsucc (i + List.length rest) (fst (sem P sev i rest None c)) = sresults (fst (sem P sev i rest None c)).
+Proof. exact last_step_one_to_one. Qed.
+Print Assumptions C17_last_step_one_to_one_spec.
+
+Theorem C17_last_step_one_to_one :
+  forall (P : Type) (sev : P -> jctx -> res json * list sevent) (src : @source json) (vp : list (vertex P))
+         (tr : @tracecfg json) d,
+    tr = Some None -> vp <> [] ->
+    (forall p c, In (VPred p) vp -> stamped (snd (sev p c))) ->
+    complete P sev src vp tr d ->
+    exists ms, map abs ms = lsucc (List.length vp) (map abs_ev (all_events d)) /\
+               outcomes d = map (fun m => OResult m) ms ++
+                            [ORaise (match snd (answer P sev src vp tr) with None => EStop | Some e => e end)].
+Proof. exact one_to_one_run. Qed.
+Print Assumptions C17_last_step_one_to_one.
+
+Theorem C17_next_is_reached :
+  forall (P : Type) (sev : P -> jctx -> res json * list sevent) (src : @source json) (vp : list (vertex P))
+         (tr : @tracecfg json) d,
+    tr = Some None ->
+    (forall p c, In (VPred p) vp -> stamped (snd (sev p c))) ->
+    complete P sev src vp tr d ->
+    Forall (step_ok P sev vp) (map abs_ev (all_events d)).
+Proof. exact next_is_reached_run. Qed.
+Print Assumptions C17_next_is_reached.
+
+Theorem C17_filter_events_stamped :
+  forall n (h : jpred) (c : jctx), stamped (snd (seval_h n h c)).
+Proof. exact seval_h_stamped. Qed.
+Print Assumptions C17_filter_events_stamped.
+
+Theorem C17_has_events_carry_candidate :
+  forall n (p : list (vertex jpred)) (c : jctx),
+    (forall q, ~ In (VPred q) p) ->
+    Forall (stamped_with c) (fst (sem jpred (seval_h n) 0 p (Some c) c)).
+Proof. exact has_events_carry_candidate. Qed.
+Print Assumptions C17_has_events_carry_candidate.
+
+(* non-vacuity: {"a": [5, 6]} under $.a[*] traced from the top: two successful last-step attempts, two results *)
+Example C17_one_to_one_example :
+  let d := JDict 1 [("a"%string, JList 2 [JInt 5; JInt 6])] in
+  let p : list (vertex Empty_set) := [VKey "a"%string; VIdxWild] in
+  List.length (lsucc 2 (fst (sem Empty_set sev0 0 p None (root_ctx d)))) = 2%nat /\
+  lsucc 2 (fst (sem Empty_set sev0 0 p None (root_ctx d))) = sresults (fst (sem Empty_set sev0 0 p None (root_ctx d))).
+Proof. vm_compute. split; reflexivity. Qed.
